@@ -71,13 +71,6 @@ impl<'a, R: RealNumberInternalTrait> Interpreter<'a, R> {
         ensures r == eval_result(*expression, **env),
     { unimplemented!() }
 
-    /// interpreter.rs: eval_procedure_call -- evaluates operator and operands of a *pending* tail call
-    #[verifier::external_body]
-    pub fn eval_procedure_call(procedure_expr: &Expression, arguments: &[Expression], env: &Rc<Environment<R>>)
-        -> (r: Result<(Procedure<R>, ArgVec<R>)>)
-        requires pending(*procedure_expr, arguments@, *env),
-    { unimplemented!() }
-
     /// interpreter.rs: apply_scheme_procedure -- consumes one argument per fixed formal with unwrap():
     /// the argument count MUST fit the formals.  A returned tail call is pending.
     #[verifier::external_body]
@@ -89,7 +82,12 @@ impl<'a, R: RealNumberInternalTrait> Interpreter<'a, R> {
         args: ArgVec<R>,
     ) -> (r: Result<TailExpressionResult<'b, R>>)
         requires arity_ok(*formals, args.spec_len()),
-        ensures r matches Ok(TailExpressionResult::TailCall(tc)) ==> pending(tc.op(), tc.operands(), tc.frame()),
+        ensures r matches Ok(TailExpressionResult::TailCall(tc)) ==> {
+            &&& pending(tc.op(), tc.operands(), tc.frame())
+            // ... and the trampoline (nobody else) may now evaluate its operator and operands
+            &&& may_eval(tc.op())
+            &&& forall|i: int| 0 <= i < tc.operands().len() ==> may_eval(#[trigger] tc.operands()[i])
+        },
     { unimplemented!() }
 }
 impl<R: RealNumberInternalTrait> Number<R> {
@@ -104,8 +102,10 @@ impl<R: RealNumberInternalTrait> Number<R> {
 #[verifier::external_body]
 pub fn literal_error<T>() -> (r: Result<T>) ensures r is Err { unimplemented!() }
 
+/// the evaluated operands an ArgVec holds
+pub uninterp spec fn argvec_items<R: RealNumberInternalTrait>(v: ArgVec<R>) -> Seq<Value<R>>;
 impl<R: RealNumberInternalTrait> ArgVec<R> {
-    pub uninterp spec fn spec_len(&self) -> nat;
+    pub open spec fn spec_len(&self) -> nat { argvec_items(*self).len() }
     #[verifier::external_body]
     pub fn len(&self) -> (r: usize) ensures r == self.spec_len() { unimplemented!() }
 }
@@ -126,6 +126,47 @@ impl<T> Located<T> {
     #[verifier::external_body]
     pub fn extract_data(self) -> (r: T) ensures r == self.data { unimplemented!() }
 }
+pub uninterp spec fn is_type_mismatch(e: SchemeError) -> bool;
+/// Err(ErrorData::Logic(LogicError::TypeMisMatch(value.to_string(), type_name)).no_locate())   (X6)
+#[verifier::external_body]
+pub fn type_mismatch_error<T>() -> (r: Result<T>) ensures r is Err, is_type_mismatch(r->Err_0) { unimplemented!() }
+
+pub open spec fn yields_ok<R: RealNumberInternalTrait, F: Fn(&Expression) -> Result<Value<R>>>(f: F, x: Expression) -> bool {
+    exists|v: Value<R>| #[trigger] f.ensures((&x,), Ok::<Value<R>, SchemeError>(v))
+}
+/// std `slice.iter().map(f).collect::<Result<ArgVec<_>>>()`, called through a wrapper (rule X3s).  ASSUMED (std): f is
+/// applied to the elements in order; the first Err ends the collection and is returned; otherwise all results are collected.
+#[verifier::external_body]
+pub fn std_map_collect<R: RealNumberInternalTrait, F: Fn(&Expression) -> Result<Value<R>>>(items: &[Expression], f: F)
+    -> (r: Result<ArgVec<R>>)
+    requires forall|i: int| 0 <= i < items@.len() ==> #[trigger] f.requires((&items@[i],)),
+    ensures match r {
+        Ok(v) => argvec_items(v).len() == items@.len()
+            && forall|i: int| #![trigger items@[i]] #![trigger argvec_items(v)[i]] 0 <= i < items@.len()
+                    ==> f.ensures((&items@[i],), Ok::<Value<R>, SchemeError>(argvec_items(v)[i])),
+        Err(e) => exists|j: int| 0 <= j < items@.len() && #[trigger] f.ensures((&items@[j],), Err::<Value<R>, SchemeError>(e))
+            && forall|i: int| #![trigger items@[i]] 0 <= i < j ==> yields_ok(f, items@[i]),
+    },
+{ unimplemented!() }
+
+/// C08 "calls a non-procedure": a call whose operator does not evaluate to a procedure is an error of the TypeMisMatch
+/// kind, an error of the operator or of an operand is passed on (never replaced by a value), and a successful result is
+/// the operator's procedure with exactly the operands' values, in order.  (Deliberately silent about WHICH error wins
+/// when several sub-expressions fail: R7RS leaves the order of evaluation open.)
+pub open spec fn call_post<R: RealNumberInternalTrait>(op: Expression, operands: Seq<Expression>, env: Rc<Environment<R>>,
+                                                      r: Result<(Procedure<R>, ArgVec<R>)>) -> bool {
+    let first = eval_result(op, *env);
+    match r {
+        Ok((p, args)) => first == Ok::<Value<R>, SchemeError>(Value::Procedure(p)) && argvec_items(args).len() == operands.len()
+            && forall|i: int| 0 <= i < operands.len() ==> #[trigger] eval_result(operands[i], *env) == Ok::<Value<R>, SchemeError>(argvec_items(args)[i]),
+        Err(e) => {
+            ||| first == Err::<Value<R>, SchemeError>(e)
+            ||| (exists|j: int| 0 <= j < operands.len() && #[trigger] eval_result(operands[j], *env) == Err::<Value<R>, SchemeError>(e))
+            ||| (first matches Ok(v) && !(v is Procedure) && is_type_mismatch(e))
+        },
+    }
+}
+
 /// `return error!(LogicError::ArgumentMissMatch(formals.clone(), args.iter().join(" ")))` (X6: the message
 /// arguments are dropped, the error KIND is kept)
 #[verifier::external_body]
@@ -247,7 +288,8 @@ UNIT = {
         "Interpreter": "opaque type (X2): only its associated functions are used",
         "as_ref": "std Box::as_ref returns the boxed value",
         "eval_expression": "ASSUMED CONTRACT: deterministic oracle eval_result; needs the may_eval permission",
-        "eval_procedure_call": "ASSUMED CONTRACT: may only be called on a pending tail call",
+        "std_map_collect": "ASSUMED (std): slice.iter().map(f).collect::<Result<_>>() applies f in order and stops at the first Err",
+        "type_mismatch_error": "X6: Err(ErrorData::Logic(LogicError::TypeMisMatch(..)).no_locate()) builds an error of that kind",
         "apply_scheme_procedure": "ASSUMED CONTRACT (from its body: one unwrap() per fixed formal): requires arity_ok; a returned tail call is pending",
         "len": "ASSUMED CONTRACT: SmallVec::len / ParameterFormals::len return the modelled length / shape",
         "apply": "ASSUMED CONTRACT: a builtin body may be applied to a count its declared parameters accept",
@@ -282,9 +324,17 @@ UNIT = {
              "sig_rewrites": [("S1", r"-> &ParameterFormals$", "-> (r: &ParameterFormals)")],
              "contract": "        ensures *r == params_of(*self),"}}},
         {"kind": "impl", "file": V, "impl": r"^impl<R: RealNumberInternalTrait> Value<R>$",
+         "require_source": [r"macro_rules! match_expect_type \{\s*\(\$value:expr, \$type:pat => \$inner: expr, \$type_name:expr\) => \{\s*match \$value \{\s*\$type => Ok\(\$inner\),\s*_ => Err\("],
          "methods": {"as_boolean": {"props": ["C02"],
              "sig_rewrites": [("S1", r"-> bool$", "-> (r: bool)")],
-             "contract": "        ensures r == truthy(*self),"}}},
+             "contract": "        ensures r == truthy(*self),"},
+             "expect_procedure": {"props": ["C08"],
+                 "sig_rewrites": [("S1", r"-> Result<Procedure<R>>$", "-> (r: Result<Procedure<R>>)")],
+                 "rewrites": [("M1e", r"match_expect_type!\(self, (.+?) => (.+?), (Type::\w+)\)",
+                               r"match self { \1 => Ok(\2), _ => type_mismatch_error() }")],
+                 "contract": """        ensures
+            self matches Value::Procedure(p) ==> r == Ok::<Procedure<R>, SchemeError>(p),
+            !(self is Procedure) ==> r is Err && is_type_mismatch(r->Err_0),"""}}},
         {"kind": "impl", "file": I, "impl": r"^impl<'a, R: RealNumberInternalTrait> Interpreter<'a, R>$",
          "methods": {
              "eval_tail_expression": {"props": ["C02"],
@@ -292,6 +342,15 @@ UNIT = {
                  "contract": """        requires forall|e: Expression| tail_evaluable(*expression, e) ==> may_eval(e),
         ensures tail_post(*expression, env, r),
         decreases *expression,"""},
+             "eval_procedure_call": {"props": ["C08", "C02", "C07"],
+                 "sig_rewrites": [("S1", r"-> Result<\(Procedure<R>, ArgVec<R>\)>$", "-> (r: Result<(Procedure<R>, ArgVec<R>)>)")],
+                 "rewrites": [("X3s", r"arguments\s*\.iter\(\)\s*\.map\(\|arg\| Self::eval_expression\(arg, env\)\)\s*\.collect::<Result<ArgVec<_>>>\(\)",
+                               "std_map_collect(arguments, |arg: &Expression| -> (o: Result<Value<R>>) requires may_eval(*arg) "
+                               "ensures o == eval_result(*arg, **env) { Self::eval_expression(arg, env) })", 1, "S")],
+                 "contract": """        requires
+            pending(*procedure_expr, arguments@, *env),
+            may_eval(*procedure_expr), forall|i: int| 0 <= i < arguments@.len() ==> may_eval(#[trigger] arguments@[i]),
+        ensures call_post(*procedure_expr, arguments@, *env, r),"""},
              "eval_primitive": {"props": ["C07", "C09"],
                  "sig_rewrites": [("S1", r"-> Result<Value<R>>$", "-> (r: Result<Value<R>>)")],
                  "rewrites": [("X6", r"error!\(SyntaxError::ExpectSomething\(\s*\"real number\"\.to_string\(\),\s*number_literal\.clone\(\),?\s*\)\)",
